@@ -79,6 +79,21 @@ def check_history(ctx, case):
             ctx.fail("history", "C05.inputs-untouched", case, tokens_before, list(raw.tokens), sig="raw-args")
         if fmt_snapshot(fmt) != snap_before:
             ctx.fail("history", "C05.inputs-untouched", case, "format listings unchanged", "step %d" % si, sig="format")
+        # the process's own argument list, wrapped by default (ArgvArgs() without an argument), is only read
+        import sys
+
+        saved_argv = sys.argv
+        try:
+            sys.argv = list(argv_before)
+            default_raw = ArgvArgs()
+            again_raw = ArgvArgs()
+            if sys.argv != argv_before or default_raw.tokens is sys.argv or list(again_raw.tokens) != tokens_before \
+                    or default_raw.script_name != "prog" or again_raw.script_name != "prog":
+                ctx.fail("history", "C05.inputs-untouched", case, argv_before,
+                         {"sys.argv after ArgvArgs()": list(sys.argv), "second wrap": list(again_raw.tokens)},
+                         sig="sys-argv")
+        finally:
+            sys.argv = saved_argv
         # the wrapped list is a copy
         argv.append("--late")
         argv[0:1] = ["other"]
